@@ -34,7 +34,12 @@ EXTENDS Integers, Sequences, FiniteSets, TLC, Json
 \* "LC" for a backslash-newline pair); they never name an alias because
 \* alias names looked up by the model contain no quoting.
 
-SepToks    == {";", "|", "&&", "||", "&"}          \* the next token starts a command
+\* "NL" is the <newline> token: like `;` it is followed by the start of a
+\* command; where the grammar has `linebreak` (after `&&`, `||`, `|`, an opening
+\* reserved word) it continues the command instead of ending it (XCU 2.10.2) -
+\* which of the two is the business of the grammar, that is of the parse of the
+\* text obtained by hand; for substitution only the position it opens matters.
+SepToks    == {";", "|", "&&", "||", "&", "NL"}    \* the next token starts a command
 RedirToks  == {">", "<", ">>"}                      \* the next token is the operand
 KwOpen     == {"!", "{", "if", "then", "else", "elif", "while", "until", "do"}
 KwClose    == {"}", "fi", "done"}
@@ -182,7 +187,7 @@ NameSeq4 == <<"a", "b", "c", "d">>
 
 N     == Len(NameSeq)
 Names == {NameSeq[i] : i \in 1..N}
-NV    == 2 * N + 7
+NV    == 2 * N + 8       \* 2N+7: the empty value; 2N+8: a value that is one blank
 
 \* value number v for an alias;  0 = not defined
 ValToks(v) == IF v <= N THEN <<NameSeq[v]>>
@@ -194,7 +199,7 @@ ValToks(v) == IF v <= N THEN <<NameSeq[v]>>
                      [] v = 2 * N + 5 -> <<">", "f">>
                      [] v = 2 * N + 6 -> <<"'q'">>
                      [] OTHER         -> <<>>
-ValBlank(v) == (v > N /\ v <= 2 * N) \/ v = 2 * N + 1
+ValBlank(v) == (v > N /\ v <= 2 * N) \/ v = 2 * N + 1 \/ v = 2 * N + 8
 
 TableOf(f) == [n \in {m \in Names : f[m] # 0} |->
                  [toks |-> ValToks(f[n]), bl |-> ValBlank(f[n]), g |-> n \in GlobalNames]]
@@ -247,7 +252,26 @@ Lines4 ==
 LinesL == { <<"a">>, <<"a", "b">>, <<"a", "b", "c">>, <<"x", "a", "b">>, <<"a", "b", "a">>,
             <<"a", "b", ";", "}">>, <<"a", ">", "b", "c">> }
 
+\* lines that go on after a <newline>: an alias in the last position of the first
+\* physical line whose value is empty, a blank only, a name with a trailing blank,
+\* an operator or a reserved word - after `&&`, `||`, `|`, `!`, `if`, `{`, `;` and
+\* at the start.  The text obtained by hand then has a linebreak (or a command
+\* terminator) where the alias stood, and the next physical line must be read
+\* exactly as it is read there.
+LinesNT ==
+  Cat3({<<>>, <<"x", "&&">>, <<"x", "||">>, <<"x", "|">>, <<"!">>, <<"if">>, <<"{">>, <<"x", ";">>, <<"x">>},
+       {<<"a">>, <<"a", "b">>}, {<<"NL", "c">>, <<"NL", "b", "c">>})
+  \cup Cat3({<<"x", "&&">>, <<"x", "|">>}, {<<"a">>, <<"a", "b">>}, {<<"NL", "b", "NL", "c">>, <<"NL", "NL", "c">>})
+  \cup { <<"if", "x", "NL", "then", "a", "NL", "fi">>, <<"{", "a", "NL", "}">>, <<"{", "a", "NL", "b", ";", "}">>,
+         <<"x", "NL", "a", "NL", "a", "b">>, <<"x", "&&", "a", "NL", "a", "NL", "c">> }
+\* (the quick tier's share)
+LinesN ==
+  Cat3({<<>>, <<"x", "&&">>, <<"x", "||">>, <<"x", "|">>, <<"!">>, <<"{">>}, {<<"a">>}, {<<"NL", "c">>, <<"NL", "b", "c">>})
+  \cup { <<"x", "&&", "a", "b", "NL", "c">>, <<"x", "&&", "a", "NL", "NL", "c">>, <<"x", "||", "a", "NL", "a", "NL", "c">> }
+
 Lines == CASE LineFam = "q" -> LinesQ
+           [] LineFam = "n" -> LinesN
+           [] LineFam = "nt" -> LinesNT
            [] LineFam = "g" -> LinesG
            [] LineFam = "t" -> LinesT
            [] LineFam = "4" -> Lines4
